@@ -1016,7 +1016,14 @@ func (f *frame) exec(instr ssa.Instruction, st *State) {
 		}
 		s := elemType(t.X.Type()).Underlying().(*types.Struct)
 		if isOpaqueNamed(elemType(t.X.Type())) {
-			panic(unsupported("field access into opaque type " + t.X.Type().String()))
+			// fields of opaque foreign structs: reads give unknown values, writes are not tracked
+			c.note("field " + fieldName(t) + " of opaque type " + elemType(t.X.Type()).String() + ": reads are unconstrained, writes untracked")
+			f.vals[t] = Val{T: t.Type(), L: []*Term{p.L[0], p.L[1]}, Fn: &opaqueRef{}}
+			return
+		}
+		if _, ok := p.Fn.(*opaqueRef); ok {
+			f.vals[t] = Val{T: t.Type(), L: p.L, Fn: p.Fn}
+			return
 		}
 		root := p.Root
 		if root == nil && p.Fn == nil {
@@ -1090,6 +1097,9 @@ func (f *frame) exec(instr ssa.Instruction, st *State) {
 		f.vals[t] = f.binop(t, st)
 	case *ssa.Store:
 		p := f.val(t.Addr)
+		if _, ok := p.Fn.(*opaqueRef); ok {
+			return
+		}
 		v := c.coerceTo(f.val(t.Val), elemType(t.Addr.Type()))
 		if !derefSafe(t.Addr) {
 			f.needNonNil(p, st, "store", t.Pos())
@@ -1154,6 +1164,9 @@ func (f *frame) exec(instr ssa.Instruction, st *State) {
 	}
 }
 
+// opaqueRef marks pointers into opaque foreign structs.
+type opaqueRef struct{}
+
 func hasArray(t types.Type) bool {
 	switch u := t.Underlying().(type) {
 	case *types.Array:
@@ -1181,6 +1194,12 @@ func (f *frame) execUnOp(t *ssa.UnOp, st *State) {
 	x := f.val(t.X)
 	switch t.Op {
 	case token.MUL:
+		if _, ok := x.Fn.(*opaqueRef); ok {
+			v := c.freshVal(t.Name(), t.Type())
+			c.wellFormed(st.reach, v, st)
+			f.vals[t] = v
+			return
+		}
 		if !derefSafe(t.X) {
 			f.needNonNil(x, st, "load", t.Pos())
 		}
